@@ -1057,6 +1057,10 @@ func (x *Exec) specCall(env *SpecEnv, c ECall) SpecVal {
 	case "allocated":
 		v := x.specTerm(env, c.Args[0])
 		return SpecVal{T: And(Gt(v, IntLit(0)), Le(v, x.top(env.st)))}
+	case "wasallocated":
+		// the value of the argument NOW was an allocated object in the old state
+		v := x.specTerm(env, c.Args[0])
+		return SpecVal{T: And(Gt(v, IntLit(0)), Le(v, x.top(env.old)))}
 	case "toreal":
 		v := x.spec(env, c.Args[0])
 		if v.Lit {
